@@ -7,15 +7,22 @@ void SortedPipeline::insertBetweenNearLeft(const QSet<HandlerType> &leftType,
                                            const QSet<HandlerType> &rightType,
                                            const HandlerPtr &handler)
 {
-    auto firstRight =
-            std::find_if(handlers().begin(), handlers().end(),
-                         [&rightType](const auto &x) { return rightType.contains(x->type()); });
+    auto &list = handlers();
 
-    auto lastLeft = std::find_if(firstRight, handlers().begin(), [&leftType](const HandlerPtr &x) {
-        return leftType.contains(x->type());
-    });
+    // First handler of a "right" type
+    int firstRight = 0;
+    while (firstRight < list.size()
+           && !(list.at(firstRight) && rightType.contains(list.at(firstRight)->type()))) {
+        ++firstRight;
+    }
 
-    handlers().insert(lastLeft, handler);
+    // Just after the last handler of a "left" type that precedes it
+    int pos = firstRight;
+    while (pos > 0 && !(list.at(pos - 1) && leftType.contains(list.at(pos - 1)->type()))) {
+        --pos;
+    }
+
+    list.insert(pos, handler);
 }
 
 QTLOGGER_DECL_SPEC
@@ -23,15 +30,20 @@ void SortedPipeline::insertBetweenNearRight(const QSet<HandlerType> &leftType,
                                             const QSet<HandlerType> &rightType,
                                             const HandlerPtr &handler)
 {
-    auto lastLeft =
-            std::find_if(handlers().end(), handlers().begin(),
-                         [&leftType](const HandlerPtr &x) { return leftType.contains(x->type()); });
+    auto &list = handlers();
 
-    auto firstRight = std::find_if(lastLeft, handlers().end(), [&rightType](const auto &x) {
-        return rightType.contains(x->type());
-    });
+    // Just after the last handler of a "left" type
+    int pos = list.size();
+    while (pos > 0 && !(list.at(pos - 1) && leftType.contains(list.at(pos - 1)->type()))) {
+        --pos;
+    }
 
-    handlers().insert(firstRight, handler);
+    // First handler of a "right" type that follows it
+    while (pos < list.size() && !(list.at(pos) && rightType.contains(list.at(pos)->type()))) {
+        ++pos;
+    }
+
+    list.insert(pos, handler);
 }
 
 QTLOGGER_DECL_SPEC
@@ -59,7 +71,8 @@ void SortedPipeline::appendAttrHandler(const AttrHandlerPtr &attrHandler)
         return;
 
     insertBetweenNearLeft({ HandlerType::AttrHandler },
-                          { HandlerType::Filter, HandlerType::Formatter, HandlerType::Sink },
+                          { HandlerType::Filter, HandlerType::Formatter, HandlerType::Sink,
+                            HandlerType::Pipeline },
                           attrHandler);
 }
 
@@ -76,7 +89,8 @@ void SortedPipeline::appendFilter(const FilterPtr &filter)
         return;
 
     insertBetweenNearLeft({ HandlerType::AttrHandler, HandlerType::Filter },
-                          { HandlerType::Formatter, HandlerType::Sink }, filter);
+                          { HandlerType::Formatter, HandlerType::Sink, HandlerType::Pipeline },
+                          filter);
 }
 
 QTLOGGER_DECL_SPEC
@@ -93,8 +107,8 @@ void SortedPipeline::setFormatter(const FormatterPtr &formatter)
 
     clearFormatters();
 
-    insertBetweenNearRight({ HandlerType::AttrHandler, HandlerType::Filter }, { HandlerType::Sink },
-                           formatter);
+    insertBetweenNearRight({ HandlerType::AttrHandler, HandlerType::Filter },
+                           { HandlerType::Sink, HandlerType::Pipeline }, formatter);
 }
 
 QTLOGGER_DECL_SPEC
@@ -106,7 +120,12 @@ void SortedPipeline::clearFormatters()
 QTLOGGER_DECL_SPEC
 void SortedPipeline::appendSink(const SinkPtr &sink)
 {
-    append(sink);
+    if (sink.isNull())
+        return;
+
+    insertBetweenNearLeft({ HandlerType::AttrHandler, HandlerType::Filter, HandlerType::Formatter,
+                            HandlerType::Sink },
+                          { HandlerType::Pipeline }, sink);
 }
 
 QTLOGGER_DECL_SPEC
